@@ -423,6 +423,17 @@ for _p, _what in (("C12", "immunity-cache, cross-tx-cache and immunity-clear"), 
     PROPS[_p]["extras"] = PROPS[_p].get("extras", []) + [{"component": "stress", "race": True, "timeout": 600}]
     PROPS[_p]["race"] = True
     PROPS[_p]["rule"] += " extra (race-detector binary, beyond the sequential quantifier): 12 rounds of the %s stress phases of the C14 engine with their monitors." % _what
+# MONITOR-ONLY scale runs (variant "scale"): histories with populations beyond 1024 / 4096 entries, executed on the implementation with the
+# monitors (the property text as Go predicates, reference queues / reference LRU) but WITHOUT the model: a threshold placed at a power of two
+# inside a batching, sweeping or purging path shows here. Validation, not proof, and not correspondence either.
+for _p, _c in (("C15", "lru"), ("C12", "immunity"), ("C13", "immunity"), ("C20", "fifo"), ("C18", "timecache")):
+    PROPS[_p]["runs"] = PROPS[_p]["runs"] + [{"component": _c, "labels": None, "variant": "scale", "monitor_only": True, "n_quick": 0, "n_thorough": 0}]
+    PROPS[_p]["rule"] += " Plus monitor-only scale histories (populations of 1100 entries (1500 for the time caches); the model is not run on them)."
+PROPS["C08"]["extras"] = PROPS["C08"].get("extras", []) + [{"component": "persist", "timeout": 600}]
+PROPS["C08"]["rule"] += " extra: 20 000 distinct keys pending in one batch (MaxBatchSize 50 000), each read back at once (monitor only)."
+for _p in ("C01", "C02"):
+    PROPS[_p]["extras"] = PROPS[_p].get("extras", []) + [{"component": "pool", "timeout": 600}]
+    PROPS[_p]["rule"] += " extra (monitor only): one selection over a pool of 70 004 accounts (140 004 in thorough) judged by the same C01/C02 monitors."
 PROPS["C16"]["coq_props"] = ["C16", "C16b"]
 PROPS["C16"]["assumptions"] = [a for a in PROPS["C16"]["assumptions"] if not a.startswith("LRU / SizeLRU / FIFOSharded satisfy cacher_laws")] + [
     "cacher_laws are PROVED for the models of the sized LRU, the plain LRU, the lruCache wrapper and the FIFO sharded cache (Props/C16b.v); those models are tied to the Go caches by the C15/C20 checks"]
